@@ -341,14 +341,98 @@ def reduce_roots(num: Poly) -> Poly:
     raise TooBig()
 
 
+def eliminate_cospi(num: Poly) -> Poly:
+    """exact arithmetic with cos(k pi/M): cos = (z**k + z**(2M-k))/2 with z a primitive 2M-th root of unity, polynomials in z
+    reduced modulo the cyclotomic polynomial Phi_2M (canonical form in Q(z)); a zero result proves the identity."""
+    import math
+    dens = set()
+    for mono in num.t:
+        for v, e in mono:
+            if v in ATOMS and ATOMS[v].op == "cospi":
+                dens.add(ATOMS[v].args[0].denominator)
+    if not dens:
+        return num
+    M = 1
+    for d in dens:
+        M = M * d // math.gcd(M, d)
+    if M > 200:
+        raise TooBig()
+    zeta = dag.mk("zeta", 2 * M)
+    ATOMS[zeta.id] = zeta
+    if zeta.id not in RULES:
+        import sympy
+        x = sympy.Symbol("x")
+        coeffs = [Fraction(int(c)) for c in sympy.Poly(sympy.cyclotomic_poly(2 * M, x), x).all_coeffs()]    # monic, highest first
+        deg = len(coeffs) - 1
+        rep = {}
+        for i, c in enumerate(coeffs[1:], 1):
+            pw = deg - i
+            if c != 0:
+                rep[((zeta.id, pw),) if pw else ()] = -c
+        RULES[zeta.id] = (deg, Poly(rep))
+    zpow = {}
+
+    def zp(k):
+        k %= 2 * M
+        if k not in zpow:
+            zpow[k] = Poly({((zeta.id, k),) if k else (): Fraction(1)}).reduce()
+        return zpow[k]
+    cosp = {}
+    out = Poly({})
+
+    def sqrt_in_field(f):
+        """sqrt(f) as a polynomial in z when it lies in Q(z) (sqrt2 = 2cos(pi/4), sqrt3 = 2cos(pi/6)), else None"""
+        if f == 2 and M % 4 == 0:
+            return zp(M // 4) + zp(2 * M - M // 4)
+        if f == 3 and M % 6 == 0:
+            return zp(M // 6) + zp(2 * M - M // 6)
+        if f == 6 and M % 12 == 0:
+            return (zp(M // 4) + zp(2 * M - M // 4)) * (zp(M // 6) + zp(2 * M - M // 6))
+        return None
+
+    def coeff_poly(c):
+        if not isinstance(c, QS):
+            return Poly({(): c})
+        r = Poly({})
+        for (f, e), v in c.t.items():
+            sp = sqrt_in_field(f) if f != 1 else None
+            if sp is None:
+                r = r + Poly({(): QS({(f, e): v}) if (f, e) != (1, 0) else v})
+            else:
+                r = r + sp.scale(QS({(1, e): v}) if e != 0 else v)
+        return r
+    for mono, c in num.t.items():
+        rest = tuple((v, e) for v, e in mono if not (v in ATOMS and ATOMS[v].op == "cospi"))
+        term = Poly({rest: Fraction(1)}) * coeff_poly(c)
+        for v, e in mono:
+            if v in ATOMS and ATOMS[v].op == "cospi":
+                q = ATOMS[v].args[0]
+                k = q.numerator * (M // q.denominator)
+                if k not in cosp:
+                    cosp[k] = (zp(k) + zp(2 * M - k)).scale(Fraction(1, 2))
+                for _ in range(e):
+                    term = term * cosp[k]
+        out = out + term
+    return out
+
+
 def numerator(n) -> Poly:
     return reduce_roots(ratpoly(n).num)
+
+
+def is_zero_poly(num: Poly) -> bool:
+    if num.is_zero():
+        return True
+    try:
+        return eliminate_cospi(num).is_zero()
+    except TooBig:
+        return False
 
 
 def is_zero(n) -> bool:
     """True if n normalises to the zero rational function (False = not shown, not necessarily non-zero)."""
     try:
-        return numerator(n).is_zero()
+        return is_zero_poly(numerator(n))
     except (TooBig, ZeroDivisionError):
         return False
 
